@@ -85,13 +85,18 @@ pub open spec fn is_cb(t: EvaluatedTx) -> bool {
     t.in_count.value == 1 && t.inputs@.len() >= 1
         && t.inputs@[0].outpoint.txid.0@ == Seq::new(32, |i: int| 0u8) && t.inputs@[0].outpoint.index == 0xFFFF_FFFFu32
 }
+/// I31: `H.as_ref() == [0u8; 32]` on a 32-byte hash (also proved on the real body by Kani harness tx_is_coinbase_predicate)
+#[verifier::external_body]
+pub fn idiom_is_zero32(h: &Sha256dHash) -> (r: bool) ensures r == (h.0@ == Seq::new(32, |i: int| 0u8)) { unimplemented!() }
 impl EvaluatedTx {
-    /// contract proved by Kani on the real body (tx_is_coinbase_predicate); `as_ref() == [0u8; 32]` is outside Verus
-    #[verifier::external_body]
-    pub fn is_coinbase(&self) -> (r: bool)
+//@extract fn src/blockchain/proto/tx.rs :: impl EvaluatedTx :: is_coinbase
+//@idiom I31 `input.outpoint.txid.as_ref() == [0u8; 32]`
+//@spec
         requires self.in_count.value == 1 ==> self.inputs@.len() >= 1,   // SAFETY-SHIM: inputs.first().unwrap()
-        ensures r == is_cb(*self),
-    { unimplemented!() }
+        ensures
+            //# C15:coinbase_is_one_input_with_null_outpoint
+            r == is_cb(*self),
+//@end
     #[verifier::external_body]
     pub fn to_bytes(&self) -> (r: Vec<u8>) ensures r@.len() == tx_size(*self) { unimplemented!() }
 }
